@@ -221,6 +221,36 @@ func init() {
 			}
 		}
 		wg.Wait()
+		// more time-outs than the completion queue holds expire while the writer is held in a write callback:
+		// every caller still gets its time-out
+		{
+			t := terms[6%len(terms)] // with 8 or more terminals: the one that never answers
+			key := string(asciiDigits(t.phone))
+			var hw sync.WaitGroup
+			for i := 0; i < 5; i++ {
+				hw.Add(1)
+				go func() {
+					defer hw.Done()
+					l.sendActive(t.idx, int(kid.Add(1)), key, consts.P9003QueryTerminalAudioVideoProperties, nil, 250*time.Millisecond)
+				}()
+				time.Sleep(3 * time.Millisecond)
+			}
+			held := make(chan struct{})
+			var once atomic.Bool
+			hold := func(c int) {
+				if c == t.idx && !once.Swap(true) {
+					select {
+					case <-held:
+					case <-time.After(700 * time.Millisecond):
+					}
+				}
+			}
+			l.writeHold.Store(&hold)
+			t.send(t.frame(0x0002, nil))
+			hw.Wait()
+			close(held)
+			l.writeHold.Store(nil)
+		}
 		close(done)
 		time.Sleep(300 * time.Millisecond) // late duplicate responses drain
 		for _, t := range terms {
